@@ -372,5 +372,47 @@ package main
 
 //@ func (*Message).isSameHeader
 //@   props C17 C01 C02 C06 C13
+//@   uses hdrcanon
+//@   assumes compact-table
 //@   modifies nothing
-//@   ensures result == (canonName(name_1) == canonName(name_2))
+//@   ensures result == sameHdrName(name_1, name_2)
+
+// ---- the header list of a Message (C01 C02 C06 C07 C13) ----
+// firstIdx(hs, n): index of the first header of list hs named n up to spelling (canonName), or -1.
+
+//@ func (*Message).GetHeader
+//@   props C02 C06 C07 C13 C01
+//@   modifies nothing
+//@   ensures found: firstIdx(m.headers, name) >= 0 ==> err == nil && result == m.headers[firstIdx(m.headers, name)]
+//@   ensures notfound: firstIdx(m.headers, name) < 0 ==> err != nil
+//@   loop 0:
+//@     invariant 0 <= $i && $i <= len(m.headers)
+//@     invariant forall j int :: 0 <= j && j < $i ==> !isHdr(m.headers[j], name)
+
+//@ func (*Message).findHeaderPos
+//@   props C06 C01
+//@   modifies nothing
+//@   ensures found: firstIdx(m.headers, name) >= 0 ==> err == nil && result == firstIdx(m.headers, name)
+//@   ensures notfound: firstIdx(m.headers, name) < 0 ==> err != nil
+//@   loop 0:
+//@     invariant 0 <= $i && $i <= len(m.headers)
+//@     invariant forall j int :: 0 <= j && j < $i ==> !isHdr(m.headers[j], name)
+
+//@ func (*Message).findViaInsertPos
+//@   props C06 C01
+//@   modifies nothing
+//@   ensures firstIdx(m.headers, "Via") >= 0 ==> result == firstIdx(m.headers, "Via")
+//@   ensures firstIdx(m.headers, "Via") < 0 ==> result == 0
+//@   loop 0:
+//@     invariant 0 <= $i && $i <= len(m.headers)
+//@     invariant forall j int :: 0 <= j && j < $i ==> !isHdr(m.headers[j], "Via")
+
+//@ func (*Message).RemoveHeader
+//@   props C02 C13 C01
+//@   modifies m.headers
+//@   ensures found: firstIdx(old(m.headers), name) >= 0 ==> err == nil && result == old(m.headers)[firstIdx(old(m.headers), name)].value
+//@        && m.headers == old(m.headers)[:firstIdx(old(m.headers), name)] ++ old(m.headers)[firstIdx(old(m.headers), name)+1:]
+//@   ensures notfound: firstIdx(old(m.headers), name) < 0 ==> err != nil && m.headers == old(m.headers)
+//@   loop 0:
+//@     invariant 0 <= $i && $i <= len(m.headers) && m.headers == old(m.headers)
+//@     invariant forall j int :: 0 <= j && j < $i ==> !isHdr(m.headers[j], name)
